@@ -10,7 +10,8 @@ PROPS_FILE = 'Props/C12.v'
 MODEL_FILES = ['Locate/Locate.v', 'Locate/LocateK.v', 'Locate/Reindex.v', 'Locate/ReindexK.v']
 K_NAME = ('K_reindex (Reindex.reindex_M / model_reindex_M / pandas_reindex_M with the conversion table cast_tbl, run by vm_compute, vs '
           'VectorContainer.reindex / BaseModel.reindex / PandasIndexFeaturesMixin.reindex on the same spans, series and fill arguments)')
-RULE = ('span pairs: old span = every prefix (quick: length 0..3, thorough 0..5) of a label universe, new span = EVERY sequence over that '
+RULE = ('NOT exhaustive as a whole: the span pairs below are enumerated completely, the fill configurations rotate through a lattice and are partly drawn from the run\'s rng. '
+        'Span pairs: old span = every prefix (quick: length 0..3, thorough 0..5) of a label universe, new span = EVERY sequence over that '
         'universe plus absent labels up to length 3 (thorough 4, sampled at 5) - so overlapping, disjoint, permuted, shrunk, extended at '
         'either end and repeated labels are all enumerated - over range / list of str / mixed hashables / NumPy int and str arrays / pandas '
         'Index / PeriodIndex Y and Q / DatetimeIndex, with new spans of the same or another span type; each container carries a float, an int, '
@@ -29,7 +30,8 @@ TRUSTED = ['label / value encoding harness/locate_common.py and harness/props/C1
            'executable index model LocateIndex.reg_get_loc / reg_contains, for which old_span_ok is proved']
 ASSUMPTIONS = ['clauses with no theorem, checked by the direct oracle only: the result is of the same class; the original (series, span, variable names, public '
                'attributes) is unchanged - also after a call that raised - and does not follow mutations of the result',
-               'documented exclusion: a NumPy-array OLD span with a repeated label raises KeyError when that label is requested (Props: C12_dup_arr_old_span_KeyError); '
+               'kept findings (faces of C10\'s): a NumPy-array OLD span with a repeated label raises KeyError when that label is requested (Props: C12_dup_arr_old_span_KeyError), '
+               'and a datetime64[ns] array OLD span raises KeyError for every period present in both spans (C12_arr_datetime64ns_old_span_refuted); '
                'for list / tuple / range old spans with repeated labels the oracle checks every label that is not itself repeated (first occurrence is what the model proves)',
                'K is stricter than the property on the exception CLASS of an unconvertible fill value and on fill methods of the pandas mixin (recorded Series.reindex '
                'answers); the direct oracle checks ffill / bfill on increasing integer spans for float variables and is silent on limit / tolerance / nearest',
@@ -38,7 +40,9 @@ ASSUMPTIONS = ['clauses with no theorem, checked by the direct oracle only: the 
                'pandas get_loc / __contains__ answers are recorded per case and handed to the model as its oracle tables',
                'the original object is an immutable value in the functional model: that it is unchanged is observed on the implementation (snapshot '
                'before / after reindex and after overwriting every array and list of the result), sharing is modelled by identity tags']
-EXHAUSTIVE = {'quick': True, 'thorough': True}
+EXHAUSTIVE = {'quick': False, 'thorough': False}          # span pairs are enumerated completely (see RULE); fill configurations rotate / are sampled
+SIG_DT64 = 'C12|reindex(datetime64[ns] ndarray old span)|KeyError-for-present-period'
+SIG_DUP_ARR = 'C12|reindex(ndarray old span with a repeated label)|KeyError-for-present-period'
 CASE_TIMEOUT = 30
 
 
@@ -225,6 +229,14 @@ ALIASED = ('BMA', 'BMAT')
 
 
 def _build(case, span):
+    c = _build0(case, span)
+    if case.get('user_attrs') and case['cls'] != 'LK':
+        c.add_attribute('scenario', 'base')           # an immutable and a mutable (list-valued) user attribute: carried over, not shared
+        c.add_attribute('tags', ['a', 'b'])
+    return c
+
+
+def _build0(case, span):
     import fsic
     n = len(span)
     cls = case['cls']
@@ -264,7 +276,8 @@ def _snapshot(c, objmap):
     return out
 
 
-PUBLIC_ATTRS = ('strict', 'dtype', 'names', 'lags', 'leads', 'endogenous', 'exogenous', 'parameters', 'errors', 'check', 'engine', 'aliases')
+USER_ATTRS = ('scenario', 'tags')          # added by _build through add_attribute when the case asks for user attributes
+PUBLIC_ATTRS = USER_ATTRS + ('strict', 'dtype', 'names', 'lags', 'leads', 'endogenous', 'exogenous', 'parameters', 'errors', 'check', 'engine', 'aliases')
 
 
 def _canon_attr(v):
@@ -396,6 +409,7 @@ def impl(case):
     obs['orig_unchanged'] = (after == before) and _meta(c) == meta_before          # also when the call raised
     if r is not None:
         obs['same_class'] = type(r) is type(c)
+        obs['span_type'] = [type(new).__name__, type(r.span).__name__, str(getattr(new, 'dtype', '')), str(getattr(r.span, 'dtype', ''))]
         obs['span_is_arg'] = r.span is new
         obs['new_labels'] = [lc.enc_label(p) for p in r.span]
         obs['vars'] = _snapshot(r, objmap)
@@ -720,7 +734,15 @@ def oracle(case, obs):
         convertible = all(fill_of(n, dt) != 'skip' for n, dt, _ in obs['old_vars'])
         # documented exclusion: a NumPy-array old span with a REPEATED label raises KeyError when that label is asked for (the fallback
         # lookup refuses several matches); list / tuple / range old spans never raise for that reason
-        excluded = dup_old and case['old']['type'] == 'nparr' and any(old_labs.count(p) > 1 for p in new_labs)
+        excluded = False
+        if obs['out'] == ['raise', 'KeyError'] and convertible:
+            # kept findings (faces of C10's): a NumPy-array old span cannot look up a repeated label / any label of a datetime64[ns] array
+            if dup_old and case['old']['type'] == 'nparr' and any(old_labs.count(p) > 1 for p in new_labs):
+                fails.append({'sig': SIG_DUP_ARR, 'what': 'the old NumPy-array span holds a repeated label that the new span asks for: reindex raises KeyError'})
+                excluded = True
+            elif case['old']['type'] == 'nparr_dt64' and case['old']['unit'] == 'ns' and any(p in old_labs for p in new_labs):
+                fails.append({'sig': SIG_DT64, 'what': 'the old span is a datetime64[ns] array: a period present in both spans makes reindex raise KeyError'})
+                excluded = True
         # a fill METHOD of the pandas mixin is outside the statement: pandas itself rejects some requests (a non-monotonic index,
         # limit / tolerance it cannot apply, ...) and that exception passes through
         by_method = cls in PANDAS and any(_var_method(case, n) is not None for n in names)
@@ -729,6 +751,9 @@ def oracle(case, obs):
         return fails
     if not obs['same_class']:
         bad(site, 'class-changed', 'the result is not an instance of the same class')
+    st = obs.get('span_type')
+    if st and (st[0] != st[1] or st[2] != st[3]):
+        bad(site, 'span-type-changed', 'the result\'s span is a %s (%s), the new span given is a %s (%s)' % (st[1], st[3], st[0], st[2]))
     if [lc.canon(j) for j in obs['new_labels']] != new_labs:
         bad(site, 'span-wrong', 'the result\'s span is not the new span')
     if [v[0] for v in obs['vars']] != names:
@@ -1009,6 +1034,26 @@ def gen(rng, tier):
             for cls in ('VC', 'BM'):
                 cases.append({'cls': cls, 'old': old_spec, 'new': {'type': typ if typ != 'pdindex' else 'list', 'labels': new_labels}, 'vars': long_vars, 'solved': 3,
                               'fill_value': None, 'fills': [], 'strict': None, 'obj_strict': False})
+    # NumPy datetime64 array old spans: [D] works, [ns] is the kept finding (KeyError for every period present in both spans)
+    for unit, start, step in (('ns', 946512000000000000, 86400 * 10 ** 9), ('D', 10955, 1)):
+        for n_old in (0, 2, 3):
+            oldspec = {'type': 'nparr_dt64', 'unit': unit, 'start': start, 'step': step, 'n': n_old}
+            labs = [['d64', unit, start + step * i] for i in range(5)]
+            for new in ({'type': 'nparr_dt64', 'unit': unit, 'start': start, 'step': step, 'n': n_old}, {'type': 'nparr_dt64', 'unit': unit, 'start': start + step, 'step': step, 'n': 3},
+                        {'type': 'list', 'labels': [labs[4], labs[3]]}, {'type': 'list', 'labels': [labs[1], labs[4], labs[0]]}, {'type': 'list', 'labels': []}):
+                for cls in ('VC', 'BM'):
+                    cases.append({'cls': cls, 'old': oldspec, 'new': new, 'vars': STD_VARS[:2], 'solved': 1, 'fill_value': None, 'fills': [], 'strict': None, 'obj_strict': False})
+    # user attributes (add_attribute): carried over to the result by value, list-valued ones not shared
+    uk = 0
+    for fname, uni, mk, _ in fams[:2] + fams[3:4] + fams[6:7]:
+        for n_old, n_new in ((2, 3), (3, 2), (0, 2)):
+            for cls in ('VC', 'BM', 'BMP', 'BMA'):
+                uk += 1
+                c = {'cls': cls, 'old': mk(n_old), 'new': mk(n_new), 'vars': STD_VARS[:2], 'solved': uk % 3, 'fill_value': None, 'fills': [], 'strict': [None, True][uk % 2],
+                     'obj_strict': uk % 3 == 0, 'user_attrs': True}
+                if cls == 'BMP':
+                    c['pandas'] = {}
+                cases.append(c)
     # linkers: reindex is documented as not implemented (NotImplementedError whatever the arguments)
     for n_old, n_new in ((2, 3), (3, 2), (0, 1)):
         for fv, fl in ((None, []), (['f', 2.5], []), (None, [['status', ['s', 'F']]])):
